@@ -19,7 +19,7 @@ VARIABLES l, nfail, runs, inst
 tvars == <<l, nfail, runs, inst>>
 
 ToSet(s) == {s[i] : i \in 1..Len(s)}
-StmtOf(j) == [kind |-> j.kind, place |-> j.place, T |-> j.T, U |-> j.U, V |-> j.V, e |-> j.e, pf |-> j.pf, on |-> j.on, hp |-> j.hp]
+StmtOf(j) == [kind |-> j.kind, place |-> j.place, T |-> j.T, U |-> j.U, V |-> j.V, e |-> j.e, pf |-> j.pf, on |-> j.on, hp |-> j.hp, mut |-> j.mut]
 InstOf(j) == [cfg |-> j.cfg, stmts |-> [i \in 1..Len(j.stmts) |-> StmtOf(j.stmts[i])]]
 
 AddFail(f) == /\ nfail' = nfail + 1
@@ -51,7 +51,7 @@ FirstBadName(c, s, want, got) ==
 TXp == /\ l <= Len(Trace) /\ Trace[l].ev = "xp" /\ l' = l + 1 /\ UNCHANGED <<runs, inst>>
        /\ LET e == Trace[l]  s == inst.stmts[e.stmt]  want == Names(inst.cfg, s) IN
           IF Bad(inst.cfg, s) THEN UNCHANGED nfail      \* accepted although invalid: reported once, by the end event
-          ELSE IF e.expr # Text(Expr(s), s.pf) THEN AddFail(FailRec(e, "text", s, ""))
+          ELSE IF e.expr # SText(s) THEN AddFail(FailRec(e, "text", s, ""))
           ELSE IF ~SameNames(want, e.names) THEN AddFail(FailRec(e, "namespace", s, FirstBadName(inst.cfg, s, want, e.names)))
           ELSE UNCHANGED nfail
 
@@ -60,7 +60,10 @@ TEnd == /\ l <= Len(Trace) /\ Trace[l].ev = "end" /\ l' = l + 1 /\ UNCHANGED <<r
                want == Verdict(inst)
                bads == BadStmts(inst)
                b1 == IF bads = {} THEN NoStmt ELSE inst.stmts[CHOOSE i \in bads : TRUE]
-               why(s) == IF ~SyntaxOK(s) THEN "syntax" ELSE "unknown-prefix:" \o BadPrefixClass(inst.cfg, s)
+               \* (for a derived invalid argument: the operation, and whether a character was inserted right after a prefix colon)
+               mcl(s) == IF s.mut.op = "none" THEN "" ELSE ":" \o s.mut.op \o
+                            (IF s.mut.op = "ins" /\ s.mut.at >= 1 /\ SubSeq(Text(Expr(s), s.pf), s.mut.at, s.mut.at) = ":" THEN ":after-colon" ELSE "")
+               why(s) == IF ~SyntaxOK(s) THEN "syntax" \o mcl(s) ELSE "unknown-prefix:" \o BadPrefixClass(inst.cfg, s)
            IN IF e.verdict \in {"crash", "timeout"} THEN AddFail(FailRec(e, e.verdict, b1, ""))
               ELSE IF want = "error" /\ e.verdict = "ok" THEN AddFail(FailRec(e, "accepted-invalid", b1, why(b1)))
               ELSE IF want = "ok" /\ e.verdict # "ok" THEN AddFail(FailRec(e, "rejected-valid", inst.stmts[1], ""))
